@@ -339,6 +339,9 @@ func (fr *Frame) assumeFieldInv(st *State, x *ssa.UnOp, c cell) {
 	if sh.mapValsNonNil[c.key] {
 		fr.u.termOrigin[fr.regs[x].S] = c.key
 	}
+	if sh.pureFuncField[c.key] {
+		fr.u.pureFnTerms[fr.regs[x].S] = c.key
+	}
 	// element of a slice loaded from an elems_nonnil field
 	if ia, ok := x.X.(*ssa.IndexAddr); ok {
 		if ld, ok := ia.X.(*ssa.UnOp); ok && ld.Op == token.MUL {
